@@ -321,9 +321,14 @@ def check_casts(run, F, skip_time=False):
             if so is not None and not u_null:
                 # Option source into a never-null target: must panic on None (documented);
                 # text targets spell it "None"
+                # with the Option combinators written out, the None rows end in a panic or in the
+                # target's `none()` (which panics for a never-null type)
+                tx_ = tblx(fn)
+                none_rows = [l for cs_, l, _ in tx_ if '!VALID(self)' in cs_]
                 ok = head(U) in ('std::string::String',) or all(l == 'PANIC' for _, l, _ in t) or \
                     'expect' in body or 'panic' in body or 'PANIC' in str(dtree.show(t)) or \
-                    'unwrap_or_else(IsNone::none)' in body or 'IsNone::none()' in body
+                    'unwrap_or_else(IsNone::none)' in body or 'IsNone::none()' in body or \
+                    (bool(none_rows) and all(l in ('PANIC', 'NULL') for l in none_rows))
                 run.ob('CAST.null', fnq, key, ok, fn.loc(), 'None -> never-null target: %s'
                        % ('panics' if ok else body[:80]))
             elif not s_null and uo is not None:
